@@ -104,10 +104,15 @@ def check(ctx):
             after = b.reach([g.target], cut_blocks=[nxt.bb])
             ctx.add("2.no-flush-after-gap-emission", "ORDER", all(c.bb not in after for c in pushes), "no cached batch is emitted between the gap's chunks and the next cached item",
                     sites=[c.where() for c in pushes], site_key="order2")
-            ctx.arg_origin("2.gap-from-current-height", g, 1, ["local:current_height"], depth=0)
+            cur = Origins(b, 1).atoms(g.args[1])
+            ctx.add("2.gap-from-current-height", "PROV", atom_match(cur, "call:core::ops::range::RangeInclusive::start") and atom_match(cur, "call:u32::saturating_add") and
+                    all(ctx.same_local(b, g.args[1], t.args[1]) for t in tail),
+                    "a gap starts at the running height (range start, then last cached height + 1), the same variable the tail starts from", sites=[g.where()], site_key="cur")
             ctx.arg_origin("2.gap-to-cached-height", g, 2, "call:core::iter::traits::iterator::Iterator::next", depth=0)
         for t in tail:
-            ctx.arg_origin("2.tail-from-current-height", t, 1, ["local:current_height"], depth=0)
+            cur_t = Origins(b, 1).atoms(t.args[1])
+            ctx.add("2.tail-from-current-height", "PROV", atom_match(cur_t, "call:core::ops::range::RangeInclusive::start") and atom_match(cur_t, "call:u32::saturating_add"),
+                    "the tail starts at the running height", sites=[t.where()], site_key="curt")
             ctx.arg_origin("2.tail-to-range-end", t, 2, "call:core::ops::range::RangeInclusive::end", depth=1)
             ctx.must_pass("2.tail-always-emitted", b, [t], exits="all")
             ctx.dominated("2.tail-after-final-flush", b, [t], by_blocks=[c for c in flush_tests if b.path([c.bb], [nxt.bb]) is None])
